@@ -18,8 +18,9 @@ Modelled exactly, one definition per C function / label:
   (ST3: first delay of the row wins), `FX_S3M_SPEED` (0 ignored, ST3 effect memory), `FX_S3M_BPM`
   (clamp at the time-factor dependent minimum), `FX_IT_BPM` (slides vs. set, `XMP_MIN_BPM` clamp),
   `FX_IT_ROWDELAY`, `FX_IT_BREAK`, `FX_GLOBALVOL`, `FX_ICE_SPEED`, `FX_SPEED_CP`, `FX_ULT_TEMPO`,
-  `FX_LINE_JUMP`; every other effect number leaves these variables alone — except the two FAR tempo
-  effects in a module that carries FAR extras (`none`: not modelled);
+  `FX_LINE_JUMP`; in a module that carries FAR extras `FX_FAR_TEMPO` / `FX_FAR_F_TEMPO`
+  (`libxmp_far_translate_tempo` with its fine-tempo "clamping", both tempo modes, the unsigned PIT
+  divisor loop and the `XMP_MIN_BPM` clamp); every other effect number leaves these variables alone;
 * the speed pre-scan and the delay decision of `check_delay`, the call order of `libxmp_read_event`
   per player mode, the `rowdelay_set` gate of `read_row` — `checkDelaySpeed`, `isDelayed`,
   `readEvent`, `readRow`;
@@ -84,6 +85,9 @@ structure Flow where
   loopCount : Int            -- f->loop_count (the global pattern-loop count, not p->loop_count)
   loopActive : Int
   loops : List Loop          -- f->loop[0 .. chn)
+  farMode : Int := 1         -- FAR module extras: me->tempo_mode
+  farCoarse : Int := 0       --                    me->coarse_tempo
+  farFine : Int := 0         --                    me->fine_tempo
   deriving Repr, Inhabited, DecidableEq
 
 namespace Flow
@@ -177,11 +181,64 @@ def iceSpeed (f : Flow) (p : Int) : Flow :=
       { f with st26 := spd * 256 + spd }
   else f
 
+/-! ### src/far_extras.c: the FAR tempo effects -/
+
+/-- the `while (divisor > 0xffff) { divisor >>= 1; tempo <<= 1; speed++; }` loop of
+`libxmp_far_translate_tempo`; `divisor` is a `uint32`, so 16 iterations always suffice -/
+def farShiftLoop : Nat → Int → Int → Int → Int × Int
+  | 0, _, t, k => (t, k)
+  | n + 1, d, t, k => if d > 0xffff then farShiftLoop n (d / 2) (t * 2) (k + 1) else (t, k)
+
+/-- "Compatibility for FAR's broken fine tempo clamping": the new `*fine` -/
+def farFineClamp (fineChange base fine : Int) : Int :=
+  if fineChange < 0 ∧ base + fine ≤ 0 then 0
+  else if fineChange > 0 ∧ base + fine ≥ 100 then 100 else fine
+
+/-- "new" FAR tempo mode: `(speed, bpm)`, or `none` for tempo 0 (`return -1`).  `divisor` is the C's
+`uint32`: a negative tempo (fine tempo lowered, then a slower coarse tempo) goes through the
+signed-to-unsigned conversion and ends at the `XMP_MIN_BPM` clamp. -/
+def farNewTempo (tempo : Int) : Option (Int × Int) :=
+  if tempo = 0 then none else
+  some ((if (farShiftLoop 32 ((Int.tdiv farPitClock tempo) % 4294967296) tempo 0).2 ≥ 2
+           then (farShiftLoop 32 ((Int.tdiv farPitClock tempo) % 4294967296) tempo 0).2 + 1
+           else (farShiftLoop 32 ((Int.tdiv farPitClock tempo) % 4294967296) tempo 0).2) + 3 + 1,
+        if (farShiftLoop 32 ((Int.tdiv farPitClock tempo) % 4294967296) tempo 0).1 < minBpm then minBpm
+        else (farShiftLoop 32 ((Int.tdiv farPitClock tempo) % 4294967296) tempo 0).1)
+
+/-- "old" FAR tempo mode -/
+def farOldTempo (base fine1 : Int) : Int × Int :=
+  (4 * 2 ^ farOldTempoShift.toNat,
+   if (base + fine1 * 2) * 2 ^ farOldTempoShift.toNat < minBpm then minBpm else (base + fine1 * 2) * 2 ^ farOldTempoShift.toNat)
+
+/-- `libxmp_far_translate_tempo(mode, fine_change, coarse, &fine, &speed, &bpm)`: the new `*fine`
+(written even when the function then returns -1) and, when it returns 0, `(speed, bpm)` -/
+def farTranslate (mode fineChange coarse fine : Int) : Int × Option (Int × Int) :=
+  if coarse < 0 ∨ coarse > 15 ∨ mode < 0 ∨ mode > 1 then (fine, none) else
+  (farFineClamp fineChange (farTempos.getD coarse.toNat 0) fine,
+   if mode = 1 then farNewTempo (farTempos.getD coarse.toNat 0 + farFineClamp fineChange (farTempos.getD coarse.toNat 0) fine)
+   else some (farOldTempo (farTempos.getD coarse.toNat 0) (farFineClamp fineChange (farTempos.getD coarse.toNat 0) fine)))
+
+/-- `libxmp_far_update_tempo` after the module-wide tempo state has been changed -/
+def farUpdate (f : Flow) (fineChange : Int) : Flow :=
+  match (farTranslate f.farMode fineChange f.farCoarse f.farFine).2 with
+  | some r => { f with farFine := (farTranslate f.farMode fineChange f.farCoarse f.farFine).1, speed := r.1, bpm := r.2 }
+  | none => { f with farFine := (farTranslate f.farMode fineChange f.farCoarse f.farFine).1 }
+
+/-- `FX_FAR_TEMPO` (coarse tempo / tempo mode) and `FX_FAR_F_TEMPO` (fine tempo up / down / reset) in
+`libxmp_far_extras_process_fx` -/
+def farTempoFx (f : Flow) (fxt fxp : Int) : Flow :=
+  if fxt = fxFarTempo then
+    farUpdate (if msn fxp ≠ 0 then { f with farMode := msn fxp - 1 } else { f with farCoarse := lsn fxp }) 0
+  else
+    if msn fxp ≠ 0 then farUpdate { f with farFine := f.farFine + msn fxp } (msn fxp)
+    else if lsn fxp ≠ 0 then farUpdate { f with farFine := f.farFine - lsn fxp } (- lsn fxp)
+    else farUpdate { f with farFine := 0 } 0
+
 /-- `libxmp_process_fx(ctx, xc, chn, e, fnum)` restricted to the variables of `Flow`, for the
 effect `(fxt, fxp)` of the selected lane, with `p->ord = ord`, `p->row = row`,
 `xc->vol.memory = volMem`.  Result: the new record and the new `xc->vol.memory` as left by the
-ST3 effect memory of the modelled effects; `none` = a FAR tempo effect in a FAR module (not
-modelled). -/
+ST3 effect memory of the modelled effects (the result is always `some`: since the FAR tempo effects
+are modelled no effect is left out; the `Option` is kept for the callers). -/
 def processFx (env : Env) (ord row chn volMem fxt fxp : Int) (f : Flow) : Option (Flow × Int) :=
   if fxt = fxJump then some ({ f with pbreak := 1, jump := fxp, jumpline := 0 }, volMem)
   else if fxt = fxBreak then some ({ f with pbreak := 1, jumpline := 10 * msn fxp + lsn fxp }, volMem)
@@ -217,7 +274,7 @@ def processFx (env : Env) (ord row chn volMem fxt fxp : Int) (f : Flow) : Option
     else some (s3mBpm env f fxp, volMem)
   else if fxt = fxLineJump then
     some ({ (if f.pbreak = 0 then { f with pbreak := 1, jump := ord } else f) with jumpline := fxp, jumpInPat := ord }, volMem)
-  else if env.far = true ∧ (fxt = fxFarTempo ∨ fxt = fxFarFTempo) then none
+  else if env.far = true ∧ (fxt = fxFarTempo ∨ fxt = fxFarFTempo) then some (farTempoFx f fxt fxp, volMem)
   else some (f, volMem)
 
 /-! ## src/player.c: `check_delay`, `read_row`; src/read_event.c: call order -/
@@ -329,13 +386,16 @@ structure Extras where
   loopCount : Int := 0
   loopActive : Int := 0
   loops : List Loop := []
+  farMode : Int := 1
+  farCoarse : Int := 0
+  farFine : Int := 0
   deriving Repr, Inhabited
 
 def toFlow (s : St) (x : Extras) : Flow :=
   { speed := s.speed, bpm := s.bpm, gvol := s.gvol, st26 := s.st26, pbreak := s.pbreak, jump := s.jump, delay := s.delay,
     jumpline := s.jumpline, loopDest := s.loopDest, rowdelay := s.rowdelay, rowdelaySet := x.rowdelaySet,
     jumpInPat := x.jumpInPat, loopParam := x.loopParam, loopStart := x.loopStart, loopCount := x.loopCount,
-    loopActive := x.loopActive, loops := x.loops }
+    loopActive := x.loopActive, loops := x.loops, farMode := x.farMode, farCoarse := x.farCoarse, farFine := x.farFine }
 
 /-- write the effect-owned variables back; the kernel-owned ones (`ord pos row frame loopCount
 sequence numRows endPoint ftBpm`) stay -/
@@ -345,7 +405,8 @@ def ofFlow (s : St) (f : Flow) : St :=
 
 def extrasOf (f : Flow) : Extras :=
   { rowdelaySet := f.rowdelaySet, jumpInPat := f.jumpInPat, loopParam := f.loopParam, loopStart := f.loopStart,
-    loopCount := f.loopCount, loopActive := f.loopActive, loops := f.loops }
+    loopCount := f.loopCount, loopActive := f.loopActive, loops := f.loops, farMode := f.farMode, farCoarse := f.farCoarse,
+    farFine := f.farFine }
 
 /-- One write of an effect stage to the variables the kernel reads.  Every writer of
 `p->speed`, `p->bpm`, `p->st26_speed`, `f->jump`, `f->jumpline` outside the kernel is one of
@@ -363,7 +424,8 @@ inductive Prim where
   | tempoSlide (slide : Int)
   /-- a global volume slide / clamp (`update_volume`): any value -/
   | gvol (v : Int)
-  /-- a write by code that is not modelled (FAR tempo effects): constrained like `Seq.Eff` -/
+  /-- a write by code that is not modelled (none is left in libxmp's player; kept for extensions):
+  constrained like `Seq.Eff` -/
   | raw (e : Eff)
 
 /-- Where each writer function of the C sources is modelled: the kernel functions in `XmpModel.Seq`
@@ -381,7 +443,7 @@ def modelledWriters : List (String × String × String) := [
   ("flow.c", "libxmp_process_pattern_loop", "Prim.fx: Fx.patternLoop"),
   ("player.c", "check_delay", "Prim.cdSpeed: Fx.checkDelaySpeed"),
   ("player.c", "play_channel", "Prim.tempoSlide: Fx.tempoSlideStep"),
-  ("far_extras.c", "libxmp_far_update_tempo", "Prim.raw: FAR tempo effects, monitored"),
+  ("far_extras.c", "libxmp_far_update_tempo", "Prim.fx: Fx.farTempoFx / Fx.farTranslate"),
   ("load_helpers.c", "libxmp_load_epilogue", "load: zeroed before the scan, set by xmp_start_player")]
 
 /-- is the writer site `(file, function, _)` covered by `modelledWriters`? -/
